@@ -57,6 +57,7 @@ type closureInfo struct {
 
 // Verifier verifies one function against its contract.
 type Verifier struct {
+	rangeEntryHas map[ssa.Value]string // per map range: presence array of the map when the range started
 	prog        *Program
 	fn          *ssa.Function
 	key         string
@@ -1161,6 +1162,10 @@ func (v *Verifier) havocLoop(li *loopInfo, st *State) {
 						}
 					}
 				}
+			case *ssa.Next:
+				if !x.IsString && v.env.rangeKeySort != "" {
+					maps["RV!"] = arr(v.env.rangeKeySort, "Bool")
+				}
 			case *ssa.MapUpdate:
 				mt := x.Map.Type().Underlying().(*types.Map)
 				mv, mp, vs, ks := v.env.mapNames(mt)
@@ -1634,6 +1639,18 @@ func (v *Verifier) execInstr(st *State, in ssa.Instruction) {
 			v.unsupportedf("range over string at %s", v.posOf(x))
 		}
 		st.regs[x] = m // the iterator stands for the map it ranges over
+		// ghost set of the keys this iteration has produced so far (spec: rangevisited(k)); empty at the start
+		{
+			mt := x.X.Type().Underlying().(*types.Map)
+			_, mp, _, ks := v.env.mapNames(mt)
+			v.env.rangeKeySort = ks
+			v.env.heapSet(st, "RV!", arr(ks, "Bool"), "((as const "+arr(ks, "Bool")+") false)")
+			pres := v.env.heapGet(st, mp, arr("Int", arr(ks, "Bool")))
+			if v.rangeEntryHas == nil {
+				v.rangeEntryHas = map[ssa.Value]string{}
+			}
+			v.rangeEntryHas[x] = sel2(pres, m.T)
+		}
 	case *ssa.Next:
 		if x.IsString {
 			v.unsupportedf("range over string at %s", v.posOf(x))
@@ -1647,6 +1664,24 @@ func (v *Verifier) execInstr(st *State, in ssa.Instruction) {
 		k := v.freshValue(st, "next.key", mt.Key())
 		v.assumeTypeFacts(st, k)
 		st.assume(implies(ok, and(not(eq(m.T, "0")), v.env.mapHas(st, m, k))))
+		// Go's range over a map produces every entry at most once, and every entry that is in the map from the start to
+		// the end of the iteration exactly once (entries removed before they are reached are not produced, entries added
+		// during the iteration may or may not be).
+		{
+			_, mp, _, ks := v.env.mapNames(mt)
+			rvs := arr(ks, "Bool")
+			rv := v.env.heapGet(st, "RV!", rvs)
+			kk := k
+			if ks == "Val" && kk.Sort != "Val" {
+				kk = v.env.makeIface(kk)
+			}
+			st.assume(implies(ok, not(sel2(rv, kk.T))))
+			if eh, has := v.rangeEntryHas[x.Iter]; has {
+				pres := v.env.heapGet(st, mp, arr("Int", arr(ks, "Bool")))
+				st.assume(implies(not(ok), "(forall ((rk!k "+ks+")) (! (=> (and (select "+eh+" rk!k) (select "+sel2(pres, m.T)+" rk!k)) (select "+rv+" rk!k)) :pattern ((select "+rv+" rk!k))))"))
+			}
+			v.env.heapSet(st, "RV!", rvs, ite(ok, "(store "+rv+" "+kk.T+" true)", rv))
+		}
 		val := v.env.mapGet(st, m, k)
 		v.assumeTypeFacts(st, val)
 		st.regs[x] = Value{Tuple: []Value{{T: ok, Sort: "Bool", GoT: types.Typ[types.Bool]}, k, val}, GoT: x.Type()}
@@ -2445,6 +2480,9 @@ func (v *Verifier) frameFormulas(st *State, asGoal bool) []frameF {
 			if g := v.prog.ghosts[strings.TrimPrefix(name, "G!")]; g != nil && g.History {
 				continue // history ghosts are outside every frame
 			}
+		}
+		if name == "RV!" {
+			continue // the ghost set of keys produced by a map range is not program state
 		}
 		wild := false
 		for _, a := range sets[name] {
